@@ -76,8 +76,8 @@ func crafted() []string {
 			if i%2 == 0 || kind == "inter" {
 				bt = append(bt, fga.Tuple{Obj: g, Rel: "b", User: "user:x"})
 			}
-			if i%7 == 0 && (kind != "diff" || i < 8 || i == 252) {
-				// under `diff` the subtracted stream ends early (only the first groups and g252)
+			if i%7 == 0 && (kind != "diff" || i < 8) {
+				// under `diff` the subtracted stream ends early (only the first groups)
 				bt = append(bt, fga.Tuple{Obj: g, Rel: "c", User: "user:x"})
 			}
 		}
